@@ -1410,6 +1410,12 @@ def probe_indexing(rng, tier, out):
                            "ok = len(sub) == len(want) and all(a is b for a, b in zip(sub.spaces, want)) and sub.field == oS.field\n"))
         out.append(C.Probe(ok_w, 'pspace-getitem-drops-weighting', 'pspace[idx] keeps a constant product weighting (and exponent)',
                            head + "sub = oS[idx]\nobserved = (oS.weighting, sub.weighting); ok = sub.weighting == oS.weighting\n"))
+        # integer index (also negative): the component object itself
+        if m:
+            k = rng.randrange(-m, m)
+            out.append(C.Probe(oS[k] is oS.spaces[k] and oS[k, ] is oS.spaces[k], 'pspace-getitem-int',
+                               'pspace[k] and pspace[k,] are the k-th component',
+                               _RP_HEAD + "S = %r\noS = H.build(S, ctx)\nk = %r\nok = oS[k] is oS.spaces[k] and oS[k,] is oS.spaces[k]\n" % (S, k)))
     # ---- element indexing commutes with asarray: tensors
     for _ in range(n):
         t = gen_tsp(rng, shape=[rng.choice([1, 2, 3]) for _ in range(rng.choice([1, 2, 3]))])
@@ -1453,7 +1459,9 @@ def probe_indexing(rng, tier, out):
         head = _RP_HEAD + "S = %r\noS = H.build(S, ctx)\nidx = %r\nx = oS.element(np.arange(oS.size, dtype=float).reshape(oS.shape) %% 2)\n" % (S, idx)
         out.append(C.Probe(ok, key, 'x[idx] has the entries, shape and dtype of x.asarray()[idx] (%s)' % S[0],
                            head + "sub = x[idx]; arr = np.asarray(x)[idx]\nok = np.array_equal(np.asarray(sub), arr)\n"))
-        out.append(C.Probe(okw, key + '-weighting', 'x[idx].space keeps the (non-array) weighting',
+        out.append(C.Probe(okw, key if isarrw else key + '-weighting',
+                           'x[idx].space carries the weighting of the selection (same constant / custom object, '
+                           'selected entries of a weighting array)',
                            head + "sub = x[idx]; w = (oS.weighting if %r == 'tensor' else oS.tspace.weighting)\n"
                            "ok = np.isscalar(sub) or sub.space.weighting == w or np.array_equal(np.asarray(sub.space.weighting.array), np.asarray(w.array)[idx])\n" % S[0]))
         # byaxis: shape of the selection, same dtype and (non-array) weighting
